@@ -173,7 +173,10 @@ def rule_prune(ctx):
     guards = []
     for d in defs:
         if isinstance(d, ast.Assign):
-            forms.append(linear_form(d.value, {sname: "S", "self._sub_dir_time_resolution": "R"}))
+            v_ = d.value
+            if isinstance(v_, ast.IfExp):
+                v_ = v_.orelse      # `datetime.min if start is None else to_datetime(start)`: the given-value arm
+            forms.append(linear_form(v_, {sname: "S", "self._sub_dir_time_resolution": "R"}))
             g = parent(d)
             if isinstance(g, ast.If):
                 guards.append(norm(g.test))
@@ -465,6 +468,8 @@ def run(ctx):
     for r in (rule_semiopen, rule_prune, rule_exclude, rule_blacklist, rule_sort_bundle, rule_trunc_table, rule_len, rule_pathstate):
         ctx.attempt(r, ctx)
     ctx.attempt(rule_anchor, ctx, "C01.anchor")
+    from .C02 import rule_memo
+    ctx.attempt(rule_memo, ctx, "C02.memo")
     ctx.rule("C01.reset", "T1", "changing time_coverage resets the cached file infos (their end times depend on it)")
     ctx.attempt(rule_reset, ctx, "C01.reset")
     # IntervalTree code reachable from find (overlap test) and is_excluded (`times in tree`)
